@@ -14,6 +14,7 @@ import (
 	"sort"
 	"sync"
 	"testing"
+	"testing/iotest"
 	"time"
 
 	ocispec "github.com/opencontainers/image-spec/specs-go/v1"
@@ -519,7 +520,12 @@ func runCase(c Case) (res vt.Result, fail *vt.Fail) {
 				absentOp++
 			}
 			want := m.expectPush(n, bad, preExisting)
-			got := s.Push(ctx, n.PushDesc(), bytes.NewReader(body))
+			var body0 io.Reader = bytes.NewReader(body)
+			if i%2 == 1 {
+				// as net/http bodies do: the last bytes arrive together with io.EOF
+				body0 = iotest.DataErrReader(body0)
+			}
+			got := s.Push(ctx, n.PushDesc(), body0)
 			if !matches(got, want) {
 				return res, vt.Failf("C06/push-result", "%s: Push returned %v (%s), model expects %v", when, got, classOf(got), want)
 			}
@@ -624,6 +630,27 @@ func runCase(c Case) (res vt.Result, fail *vt.Fail) {
 		if f := sweep("after concurrent phase"); f != nil {
 			res.Classes = keys(classes)
 			return res, f
+		}
+		if c.Kind == "oci" && c.AutoSave {
+			// the quiesced state includes what the layout persisted: every tag the
+			// live store serves is served, with the same target, by a reopened one
+			re, err := oci.New(filepath.Join(root, "layout"))
+			if err != nil {
+				return res, vt.Failf("C06/reopen-failed", "after concurrent phase: %v", err)
+			}
+			var live []string
+			if err := ociS.Tags(ctx, "", func(t []string) error { live = append(live, t...); return nil }); err != nil {
+				return res, vt.Failf("C06/tags-error", "after concurrent phase: %v", err)
+			}
+			for _, ref := range live {
+				a, errA := ociS.Resolve(ctx, ref)
+				b, errB := re.Resolve(ctx, ref)
+				if errA != nil || errB != nil || gen.TripleKey(a) != gen.TripleKey(b) {
+					res.Classes = keys(classes)
+					return res, vt.Failf("C06/concurrent-tag-not-persisted", "after concurrent phase: Resolve(%q) live = %s (%v), reopened layout = %s (%v)", ref, gen.TripleKey(a), errA, gen.TripleKey(b), errB)
+				}
+			}
+			classes["conc-reopen-compared"] = true
 		}
 	}
 	res.Classes = keys(classes)
@@ -844,6 +871,7 @@ func keys(m map[string]bool) []string {
 
 func TestMain(m *testing.M) {
 	vt.ReplayRepeat["tagdelete"] = 100
+	vt.ReplayRepeat["oci"] = 40
 	vt.ReplayRepeat["nameclash"] = 20
 	vt.Main(m, "C06",
 		vt.NewLeg("memory", 1500, 6000, 4, genCase("memory"), runCase),
